@@ -4,7 +4,7 @@ From Coq Require Import String Ascii.
 From Coq Require Import List Arith ZArith Bool Lia.
 Import ListNotations.
 Require Import MD.Topo.Model MD.Topo.Carriers MD.Topo.Run MD.Topo.Basics MD.Topo.Build MD.Topo.AbsWalk MD.Topo.Copy
-  MD.Topo.EqHash MD.Topo.Subset.
+  MD.Topo.EqHash MD.Topo.Subset MD.Topo.CarrierProofs MD.Topo.BuildFrom MD.Topo.Join.
 Open Scope nat_scope.
 Open Scope string_scope.
 
@@ -134,13 +134,128 @@ Qed.
 
 (* each of the two defects alone breaks it *)
 Lemma subset_abs_cur_refuted_chain_id :
-  let fl := Build_flags true true false true true true true true true true true in
+  let fl := Build_flags true true false true true true true true true true true true in
   exists h' t' v, abs wit_h wit_t = Some v /\ subset fl wit_h wit_t wit_keep = Some (h', t') /\
                   abs h' t' <> Some (subset_v wit_keep v).
 Proof. eexists; eexists; eexists. split; [vm_compute; reflexivity|]. split; [vm_compute; reflexivity|]. vm_compute. discriminate. Qed.
 
 Lemma subset_abs_cur_refuted_resseq0 :
-  let fl := Build_flags true true true true false true true true true true true in
+  let fl := Build_flags true true true true false true true true true true true true in
   exists h' t' v, abs wit_h wit_t = Some v /\ subset fl wit_h wit_t wit_keep = Some (h', t') /\
                   abs h' t' <> Some (subset_v wit_keep v).
 Proof. eexists; eexists; eexists. split; [vm_compute; reflexivity|]. split; [vm_compute; reflexivity|]. vm_compute. discriminate. Qed.
+
+(* ---- HDF5: the JSON drops serial, chain id, bond type and order *)
+Definition wit_v : vtop := match abs wit_h wit_t with Some v => v | None => {| vt_chains := []; vt_bonds := [] |} end.
+
+Lemma wit_v_normal : normal (vt_chains wit_v).
+Proof. vm_compute. reflexivity. Qed.
+
+Lemma h5_roundtrip_cur_refuted :
+  exists v, normal (vt_chains v) /\
+            (num_chains 0 0 0 (fst (h5_round false v)) <> vt_chains v) /\
+            (map orient (snd (h5_round false v)) <> vt_bonds v).
+Proof. exists wit_v. split; [exact wit_v_normal|]. split; vm_compute; discriminate. Qed.
+
+(* ---- PDB: CONECT numbers that are not the numbers of the ATOM records *)
+Definition conect_numbers (recs : list pdbrec) : list Z :=
+  concat (map (fun r => match r with PConect l => l | _ => [] end) recs).
+Definition atom_numbers (recs : list pdbrec) : list Z :=
+  concat (map (fun r => match r with PAtom s _ _ _ _ _ _ => [s] | _ => [] end) recs).
+Definition conect_refers_to_atoms (recs : list pdbrec) : bool :=
+  forallb (fun n => existsb (Z.eqb n) (atom_numbers recs)) (conect_numbers recs).
+
+Definition pdb_ops : list op :=
+  [ONew; OAddChain 0 (Some "A"); OAddResidue 0 0 "LIG" (Some 4%Z) "";
+   OAddAtom 0 0 "C1" "C" (Some 5%Z); OAddAtom 0 0 "C2" "C" (Some 9%Z); OAddBond 0 0 1 None None].
+
+Lemma pdb_conect_cur_refuted :
+  let st := run flags_cur pdb_ops in
+  exists recs, pdb_write flags_cur true (st_heap st) (slot st 0) = Some recs /\ conect_refers_to_atoms recs = false.
+Proof. eexists. split; vm_compute; reflexivity. Qed.
+
+Lemma pdb_conect_fix_witness :
+  let st := run flags_fix pdb_ops in
+  exists recs, pdb_write flags_fix true (st_heap st) (slot st 0) = Some recs /\ conect_refers_to_atoms recs = true.
+Proof. eexists. split; vm_compute; reflexivity. Qed.
+
+(* the bond is lost by the PDB round trip as found, kept by the repaired writer *)
+Lemma pdb_roundtrip_bond_cur_lost :
+  let st := run flags_cur (pdb_ops ++ [OPdb 0 true])%list in
+  option_map vt_bonds (abs (st_heap st) (slot st 1)) = Some [].
+Proof. vm_compute. reflexivity. Qed.
+Lemma pdb_roundtrip_bond_fix_kept :
+  let st := run flags_fix (pdb_ops ++ [OPdb 0 true])%list in
+  option_map vt_bonds (abs (st_heap st) (slot st 1)) = Some [{| vb_i := 0; vb_j := 1; vb_type := None; vb_order := None |}].
+Proof. vm_compute. reflexivity. Qed.
+
+(* two hub atoms with five partners each, bonded to each other as the fourth partner of both: as
+   found the CONECT continuation ("print three, delete four") drops that bond from both records *)
+Definition pdb_ops5 : list op :=
+  ([ONew; OAddChain 0 (Some "A"); OAddResidue 0 0 "LIG" (Some 4%Z) ""] ++
+   map (fun i => OAddAtom 0 0 "C" "C" None) (seq 0 10) ++
+   [OAddBond 0 0 2 None None; OAddBond 0 0 3 None None; OAddBond 0 0 4 None None;
+    OAddBond 0 1 6 None None; OAddBond 0 1 7 None None; OAddBond 0 1 8 None None;
+    OAddBond 0 0 1 None None; OAddBond 0 0 5 None None; OAddBond 0 1 9 None None; OPdb 0 true])%list.
+Lemma pdb_conect_del_cur_refuted :
+  let st := run flags_cur pdb_ops5 in
+  option_map (fun v => length (vt_bonds v)) (abs (st_heap st) (slot st 1)) = Some 8.
+Proof. vm_compute. reflexivity. Qed.
+Lemma pdb_conect_del_fix_witness :
+  let st := run flags_fix pdb_ops5 in
+  option_map (fun v => length (vt_bonds v)) (abs (st_heap st) (slot st 1)) = Some 9.
+Proof. vm_compute. reflexivity. Qed.
+
+(* ---- delete_atom_by_index: as found, ownership lists go out of step *)
+Definition del_ops : list op :=
+  [ONew; OAddChain 0 None; OAddResidue 0 0 "HOH" None ""; OAddAtom 0 0 "H" "H" None;
+   OInsertAtom 0 0 "H" "H" None (Some 0) None; ODelete 0 0].
+(* _atoms and the chain-wise walk must hold the same atoms *)
+Definition lists_agree (h : heap) (t : topo) : bool :=
+  list_eqb Nat.eqb (t_atoms t) (chainwise_atoms h (t_chains t)).
+Lemma delete_cur_breaks_ownership :
+  let st := run flags_cur del_ops in lists_agree (st_heap st) (slot st 0) = false.
+Proof. vm_compute. reflexivity. Qed.
+Lemma delete_fix_keeps_ownership :
+  let st := run flags_fix del_ops in lists_agree (st_heap st) (slot st 0) = true.
+Proof. vm_compute. reflexivity. Qed.
+
+(* dangling bonds after a delete, as found *)
+Definition del_ops2 : list op :=
+  [ONew; OAddChain 0 None; OAddResidue 0 0 "LIG" None ""; OAddAtom 0 0 "C1" "C" None; OAddAtom 0 0 "C2" "C" None;
+   OAddAtom 0 0 "C3" "C" None; OAddBond 0 0 1 None None; OAddBond 0 1 2 None None; ODelete 0 0].
+Definition bonds_owned (t : topo) : bool :=
+  forallb (fun l => existsb (Nat.eqb l) (t_atoms t)) (bond_ends t).
+Lemma delete_cur_leaves_dangling_bond : let st := run flags_cur del_ops2 in bonds_owned (slot st 0) = false.
+Proof. vm_compute. reflexivity. Qed.
+Lemma delete_fix_drops_bond : let st := run flags_fix del_ops2 in bonds_owned (slot st 0) = true.
+Proof. vm_compute. reflexivity. Qed.
+
+(* join runs on the witness *)
+Lemma wit_join_fix_runs : exists h' t', join flags_fix wit_h wit_t wit_t true = Some (h', t').
+Proof. eexists; eexists. vm_compute. reflexivity. Qed.
+Lemma join_abs_cur_refuted :
+  exists h t o h' t' va vo, wfo h t /\ wfo h o /\ abs h t = Some va /\ abs h o = Some vo /\
+                            join flags_cur h t o true = Some (h', t') /\ abs h' t' <> Some (join_v va vo).
+Proof.
+  exists wit_h, wit_t, wit_t. eexists; eexists; eexists; eexists. split; [exact wit_wfo|]. split; [exact wit_wfo|].
+  split; [vm_compute; reflexivity|]. split; [vm_compute; reflexivity|]. split; [vm_compute; reflexivity|]. vm_compute. discriminate.
+Qed.
+
+(* df exactness holds for a non-trivial topology *)
+Definition df_ops : list op :=
+  [ONew; OAddChain 0 (Some "X"); OAddResidue 0 0 "LIG" (Some 4%Z) "S1"; OAddAtom 0 0 "C1" "C" (Some 5%Z);
+   OAddAtom 0 0 "C2" "C" (Some 9%Z); OAddResidue 0 0 "LIG" (Some 0%Z) ""; OAddAtom 0 1 "O" "O" None;
+   OAddChain 0 None; OAddResidue 0 1 "LIG" (Some 0%Z) ""; OAddAtom 0 2 "M" "VS" None; OAddBond 0 0 3 (Some Aromatic) (Some 2)].
+Definition df_v : vtop :=
+  let st := run flags_cur df_ops in match abs (st_heap st) (slot st 0) with Some v => v | None => {| vt_chains := []; vt_bonds := [] |} end.
+Lemma df_v_exact : normal (vt_chains df_v) /\ df_exact df_v /\ Forall vbond_ok (vt_bonds df_v).
+Proof.
+  split; [vm_compute; reflexivity|]. split.
+  - split.
+    + intros c Hin. vm_compute in Hin. destruct Hin as [<-|[<-|[]]]; simpl.
+      * split; [discriminate|]. split; [intros r [<-|[<-|[]]]; simpl; discriminate|]. split; [reflexivity | exact I].
+      * split; [discriminate|]. split; [intros r [<-|[]]; simpl; discriminate|]. exact I.
+    + vm_compute. split; [discriminate | exact I].
+  - vm_compute. repeat constructor.
+Qed.
